@@ -502,7 +502,11 @@ impl Driver {
                     }
                     Some(OpType::Fd(_)) => {
                         // FIXME: This should not happen
-                        let Some(fd) = op.extra().as_poll().next_fd() else {
+                        let Some(fd) = op
+                            .extra()
+                            .as_poll()
+                            .next_fd(event.readable, event.writable)
+                        else {
                             return Ok(());
                         };
                         drop(op);
